@@ -57,9 +57,12 @@ def gen_scenario(rng, cfg, n_calls, multi_prob, history=None):
                     idxs[0] = 0
             keys = rng.sample(range(0, 12), k)
             history.append({"batch": [[keys[i], idxs[i]] for i in range(k)], "multi": rng.random() < multi_prob,
-                            "delays": [round(rng.choice([0, 0.05, 0.15, 0.3]), 2) for _ in range(k)]})
+                            "delays": [round(rng.choice([0, 0.05, 0.15, 0.3]), 2) for _ in range(k)],
+                            # generous budgets that never expire: the answers must not depend on a budget being set
+                            "budget": rng.choice([None, None, ["inference_timeout", 60], ["total_timeout", 120]])})
     else:
-        history = [{"batch": [[k, (q - 1) % len(pool)] for k, q in h["batch"]], "multi": h["multi"], "delays": [round(rng.choice([0, 0.1, 0.25]), 2) for _ in h["batch"]]} for h in history]
+        history = [{"batch": [[k, (q - 1) % len(pool)] for k, q in h["batch"]], "multi": h["multi"], "delays": [round(rng.choice([0, 0.1, 0.25]), 2) for _ in h["batch"]],
+                    "budget": rng.choice([None, None, ["inference_timeout", 60], ["total_timeout", 120]])} for h in history]
     return {"sig": case["sig"], "base": [(c["B"], c["A"]) for c in case["base"]], "pool": pool, "cfg": list(cfg), "history": history}
 
 
@@ -118,7 +121,8 @@ def _exec_scenario(sc):
                     c._vdelay = call["delays"][pos] if call["multi"] else 0
                     conds[key] = c
                 try:
-                    impl.with_limit(300, mgr.inference, Queries(conds), multi_inference=call["multi"])
+                    kw = {call["budget"][0]: call["budget"][1]} if call.get("budget") else {}
+                    impl.with_limit(300, mgr.inference, Queries(conds), multi_inference=call["multi"], **kw)
                 except impl.CallTimeout:
                     tracer.emit({"ev": "harness-timeout", "mid": 1})
                 except BaseException as e:
